@@ -207,7 +207,7 @@ def worker(spec, out):
         if check_meta and ka in ("vector", "list", "queue", "set", "map", "symbol"):
             ma, mc = clean_meta(getattr(a, "meta", None)), clean_meta(getattr(c, "meta", None))
             if (ma is None) != (mc is None) or (ma is not None and diff(ma, mc, False)):
-                return (ka, "meta-lost")
+                return (ka, "meta-lost", "node %s: metadata %r became %r" % (repr(a)[:60], ma, mc))
         return None
 
     def leaves(v, acc):
@@ -311,7 +311,7 @@ def worker(spec, out):
                 # the printer runs regex patterns through the unicode_escape codec (pinned by the repository's own tests)
                 if any(kind(x) == "regex" and x.pattern.encode("unicode_escape").decode("ascii") != x.pattern for x in leaves(v, [])):
                     k0 = "regex-unicode-escaped"
-            fail(k0, d[1], {"reread": repr(back)[:200]})
+            fail(k0, d[1], {"reread": repr(back)[:200], "detail": list(d[2:])})
             return
         try:
             s2 = pr(strip(back), cfg)
